@@ -160,7 +160,7 @@ def generate(rng, tier):
     cases = []
     if tier == 'thorough':
         cases += list(exhaustive_cases())
-        n_rand = 60000
+        n_rand = 40000
     else:
         ex = list(exhaustive_cases())
         cases += rng.sample(ex, 1200)
